@@ -116,6 +116,13 @@ def run(ck: Check) -> None:
     s0 = seeds[3 % len(seeds)]
     for n in [0, 1, 16, 31, 33, 64]:
         cases += [Case("key", ["priv_from_bytes", bytes(n)], tag="bad-length"), Case("key", ["pub_from_bytes", bytes(n)], tag="bad-length")]
+    # wrong lengths in the shapes other tools use for the same key: OpenPGP's native point format (0x40 prefix), SEC1-style prefixes, DER / PEM wrappers,
+    # seed || public key (64 bytes), a trailing newline
+    pub_raw = Pub.to_bytes(P.from_bytes(s0).public_key())
+    for wrapped in [b"\x40" + pub_raw, b"\x04" + pub_raw, b"\x00" + pub_raw, pub_raw + b"\n", bytes.fromhex("302a300506032b6570032100") + pub_raw, s0 + pub_raw, b"\x40" + s0,
+                    s0 + b"\n", pub_raw[:31], pub_raw.hex().encode()]:
+        cases += [Case("key", ["priv_from_bytes", wrapped], tag="bad-length"), Case("key", ["pub_from_bytes", wrapped], tag="bad-length"),
+                  Case("key", ["pub_from_bytes", bytearray(wrapped)], tag="bad-length")]
     h = seeds[6].hex()
     for bad in [h.upper() if h.upper() != h else "A" + h[1:], h[:-2], h + "00", " " + h[1:], h[:-1] + " ", h[:-1], "0x" + h[2:], "", None, 5, seeds[6], [h], proto.Opaque(0),
                 h + "\n", " " + h, h + " ", "\t" + h, h[:32] + " " + h[32:], " ".join(h[i:i + 4] for i in range(0, 64, 4)), h + "\r\n", "0x" + h, h[:-1] + h[-1].upper() if h[-1].isalpha() else h[:-1] + "F"]:
@@ -148,6 +155,27 @@ def run(ck: Check) -> None:
             ck.violation("a conversion path among bytes / hex / key objects does not return the same value", {"seed": seed.hex()}, "conversion-roundtrip")
     # key files
     d = impl.scratch_dir()
+    os.environ["CCTV_KEYDIR"] = "elsewhere"
+    cwd0 = os.getcwd()
+    os.chdir(d)
+    os.makedirs(os.path.join(d, "~"), exist_ok=True)
+    try:
+        for nm in ["key$CCTV_KEYDIR", "${CCTV_KEYDIR}key", "~/k", "k%CCTV_KEYDIR%", "$HOME-k"]:
+            # relative names with characters a shell (not this library) would expand: written and read back under the name as given
+            ck.count("keyfiles:literal-name")
+            try:
+                priv, pub = impl.metadata_construction.gen_and_write_keys(nm)
+                p2, pub2 = impl.common.keyfiles_to_keys(nm)
+                same = P.to_bytes(priv) == P.to_bytes(p2) and Pub.to_bytes(pub) == Pub.to_bytes(pub2) and os.path.exists(os.path.join(d, nm + ".pri"))
+            except Exception as e:  # noqa: BLE001
+                same = False
+            ck.oracle_checks += 1
+            ck.evaluations += 1
+            if not same:
+                ck.violation("keys written under a name containing '$' / '~' / '%' do not load back under that name (or were not written where the name says)",
+                             {"name": nm}, "keyfiles-name-expanded")
+    finally:
+        os.chdir(cwd0)
     written = {}
     for i in range(20):
         # names are reused (later rounds write over the files of earlier ones) and take the shapes people give key files: dotted, versioned, spaced, non-ASCII
